@@ -10,7 +10,7 @@ import lib
 ID = 'C14'
 GEN_FILES = ['T_require', 'T_files_build', 'T_lexer', 'T_parser']
 COQ_PROPERTY = 'theories/Properties/C14.vo'
-COQ_EXTRA = ['theories/Proofs/ReqEmbedInstProofs.vo']
+COQ_EXTRA = ['theories/Proofs/ReqEmbedInstProofs.vo', 'theories/Proofs/SpecLexChunk.vo']
 MODEL = ('ExC14', 'c14_main.ml')
 MONITOR = ('MonC14', 'c14_mon_main.ml')
 CASE_TIMEOUT = 60
@@ -21,7 +21,8 @@ RULE = ('case = (a directory tree of .lua files: main program + up to 6 packages
         'by the extracted instance predicate; distinct+non-trivial = distinct (graph shape, load-path kind, '
         'feature set, outcome) classes among runs that embed at least one package or fail')
 ASSUMPTIONS = [
-    'file names and package bodies are printable ASCII (P8SCII = UTF-8 there), so the __lua__ section of OUT.p8 is the code',
+    'the __lua__ section of OUT.p8 (UTF-8 of the Unicode rendering) is read back as P8SCII bytes with picotool\'s own '
+    'table (identity on ASCII; the bijection is C15\'s theorem); generated bodies are ASCII plus a few glyph bytes',
     'no symbolic links in the scratch tree; OUT.p8 does not exist before the build',
     'the monitor makes no claim (verdict 100) when the written description does not determine the outcome: a string '
     'that names different files from different requiring files, requests for one package that disagree about '
@@ -30,23 +31,36 @@ ASSUMPTIONS = [
     'token, as it silently does after a `return`) is outside C14 (that is C07 / C08); such runs are compared with '
     'the model but not judged',
 ]
-PARTIAL = ('C14_tokens (significant tokens of the result = header ++ package blocks ++ loader ++ main tokens, package '
-           'bodies intact apart from the stripped game-loop functions) is not proved in Coq: it needs the lexer '
-           'stack\'s chunking lemma (chunks ending in a newline lex independently) and C06\'s echo theorem; it is '
-           'checked on every run by the extracted monitor holds_C14 instead. C14_structure_bytes carries C06\'s '
-           'echo statement as an explicit hypothesis.')
+PARTIAL = ('C14_reference_chunking / C14_reference_final_lf prove the chunking property of the reference tokenizer, and '
+           'C14_tokens_spec_partial states the token-level clause for the concrete stack against that tokenizer with the '
+           'constants computed; its one remaining hypothesis is the token-faithful echo of the lexer model (C06), which '
+           'C14_echo_predicate_suffices reduces to C06\'s own predicate holds_C06 on (text, echo) + no lone CR in the echo '
+           '(C14_tokens_spec_partial_c06). '
+           'The token-level clause (significant tokens of the result = header ++ package blocks ++ loader ++ main '
+           'tokens, package bodies intact apart from the stripped game-loop functions) is proved only RELATIVE to '
+           'hypotheses that are visible in the statements and not discharged for the concrete stack: '
+           'C14_tokens_partial / C14_tokens_partial_now assume the reference tokenizer\'s chunking property (a text '
+           'ending in a newline lexes independently of what follows; a final newline adds no token: C07\'s chunking '
+           'lemma) and the lexer\'s token-faithful echo (C06: the echoed text has the source\'s tokens); '
+           'C14_block_tokens_partial additionally assumes that the stripping step acts on significant tokens as the '
+           'removal of the game-loop definitions (unconditionally proved of the concrete stripping: it only removes '
+           'tokens, C14_strip_only_removes). The clause itself is checked on every run by the extracted monitor '
+           'holds_C14. C14_structure_bytes / C14_unstripped_block assume a BYTE-faithful echo, which picotool\'s '
+           'lexer has only for sources whose quoted strings are spelled canonically (C06: other strings are re-spelled '
+           'with the same denotation).')
 CLAIM = dict(
     text=("Theorems (Coq, closed under the global context) about a model of build.py's _evaluate_require / "
           "RequireWalker / _prepend_package_lua, proved for EVERY lexer, parser, walker, name check, file map and load "
           "path (the model is a Section over them) and instantiated with the lexer / parser / path models and the "
           "constants regenerated from build.py: C14_structure (the text handed to the final parse is package preamble "
           "++ one block per table entry ++ require preamble ++ the main program's lines), C14_structure_bytes / "
-          "C14_unstripped_block (the bytes, under C06's echo hypothesis: main unchanged, {use_game_loop=true} packages "
-          "byte for byte), C14_once (table names distinct, exactly the names reachable through require(), each after a "
+          "C14_unstripped_block (the bytes, under a byte-faithful-echo hypothesis: main unchanged, {use_game_loop=true} "
+          "packages byte for byte), C14_once (table names distinct, exactly the names reachable through require(), each after a "
           "requirer, each a located+parsed+stripped file; cycles terminate), C14_errors* (walker exception / refused "
           "name / missing file => the build returns an error and no output), C14_terminates(_now) (1 + number of "
-          "require strings is enough fuel; more fuel never changes the result). The token-level clause is partial "
-          "(see partial). Tie: correspondence of the extracted model (full lexer+parser+walker stack) with the real "
+          "require strings is enough fuel; more fuel never changes the result), C14_dfs_exact (the search computes "
+          "exactly the fuel-free depth-first relation Run). The token-level clause is partial: C14_tokens_partial(_now) "
+          "and C14_block_tokens_partial prove it relative to named hypotheses about the lexer stack (see partial). Tie: correspondence of the extracted model (full lexer+parser+walker stack) with the real "
           "`p8tool build` on generated package graphs (code bytes of OUT.p8, error class), RequireWalker alone on "
           "every generated file, and the extracted instance predicate holds_C14 (Spec/ + Base/ only: reference "
           "tokenizer, token-level require / game-loop / load-path description written from the README) on the real "
